@@ -288,7 +288,10 @@ def run(A, R: Report, thorough: bool):
                 witness=[f'{k} = {pretty(v[0])[:160]}' for k, v in terms.items() if v], where=where(fpc, c))
     obj_branch = [n for n in A.typer.own_nodes(fpc) if isinstance(n, ast.Assign) and src(n.targets[0]) in ('use.context', 'use.namespace')]
     ctx_ok = any(src(n.targets[0]) == 'use.context' and src(n.value) == f'{cp}.context' for n in obj_branch)
-    ns_ok = any(src(n.targets[0]) == 'use.namespace' and '::' in src(n.value) and f'{cp}.namespace' in src(n.value) for n in obj_branch)
+    ns_stores = [n for n in obj_branch if src(n.targets[0]) == 'use.namespace']
+    atn = A.sym.terms_at(fpc, ('inst', A.cls('Chain')), [n.value for n in ns_stores]) if ns_stores else {}
+    own_ns9 = ('attr', ('p', cp), 'namespace')
+    ns_ok = any(any(x[0] == 'cat' and len(x[1]) == 3 and x[1][0] == own_ns9 and x[1][1] == ('lit', '::') for x in dag_nodes(t_)) for n in ns_stores for t_ in atn.get(id(n.value), []))
     prep = any(isinstance(n, ast.Call) and src(n.func) == 'use._prepare' for n in A.typer.own_nodes(fpc))
     R.check(ctx_ok and ns_ok and prep, 'R09.4', 'Chain._process_config: Config object in uses', key_of('object-branch', ctx_ok, ns_ok, prep), 'context and composed namespace assigned, config re-prepared',
             'a Config object listed in `uses` does not receive the context / composed namespace (or is not re-prepared with them)', where=where(fpc))
